@@ -204,8 +204,16 @@ def c20(run):
     # ---- dynamic: race detector + trace validation
     racelog = os.path.join(run.dir, "race")
     # exit code 66 = the race detector reported something (the reports are read below)
-    trace, _ = run.exec("C20", env={"GORACE": "log_path=%s halt_on_error=0" % racelog}, ok_codes=(0, 66))
     reports, first = 0, ""
+    try:
+        trace, _ = run.exec("C20", env={"GORACE": "log_path=%s halt_on_error=0" % racelog}, ok_codes=(0, 66))
+    except pipeline.Infra as ex:
+        # the Go runtime kills the process on unsynchronised map access: that IS an observed data race
+        if "fatal error: concurrent map" not in str(ex):
+            raise
+        trace = os.path.join(run.dir, "trace-C20.ndjson")
+        open(trace, "w").close()
+        reports, first = 1, "fatal error: concurrent map " + str(ex).split("fatal error: concurrent map", 1)[1][:900]
     for f in glob.glob(racelog + "*"):
         txt = open(f, errors="replace").read()
         n = txt.count("WARNING: DATA RACE")
